@@ -570,33 +570,33 @@ theorem trySpecs_uid (f32 : List Char → Option (List Char)) (ctx : Ctx) : ∀ 
 /-! ## the fallback -/
 
 structure AllUid (e : Env) (fuel : Nat) : Prop where
-  u : ∀ ctx isB acc (s : PState) lo, lo ≤ s.seqId → UidOkL acc.reverse →
-    MQ lo (unknownIfdata fuel ctx isB acc e s) (fun g _ => UidOk g)
-  ts : ∀ ctx (s : PState) lo, lo ≤ s.seqId → MQ lo (unknownTaggedstruct fuel ctx e s) (fun g _ => UidOk g)
-  l : ∀ ctx acc (s : PState) lo, lo ≤ s.seqId →
-    MQ lo (unknownTsLoop fuel ctx acc e s)
+  u : ∀ ctx isB dp acc (s : PState) lo, lo ≤ s.seqId → UidOkL acc.reverse →
+    MQ lo (unknownIfdata fuel ctx isB dp acc e s) (fun g _ => UidOk g)
+  ts : ∀ ctx dp (s : PState) lo, lo ≤ s.seqId → MQ lo (unknownTaggedstruct fuel ctx dp e s) (fun g _ => UidOk g)
+  l : ∀ ctx dp acc (s : PState) lo, lo ≤ s.seqId →
+    MQ lo (unknownTsLoop fuel ctx dp acc e s)
       (fun vs s' => ∃ new, vs = acc.reverse ++ new ∧ ItemsQ s new s' ∧ s.seqId ≤ s'.seqId)
 
 theorem allUid_zero : AllUid e 0 := by
   constructor
-  · intro ctx isB acc s lo _ _; rw [unknownIfdata.eq_def]; trivial
-  · intro ctx s lo _; rw [unknownTaggedstruct.eq_def]; trivial
-  · intro ctx acc s lo _; rw [unknownTsLoop.eq_def]; trivial
+  · intro ctx isB dp acc s lo _ _; rw [unknownIfdata.eq_def]; trivial
+  · intro ctx dp s lo _; rw [unknownTaggedstruct.eq_def]; trivial
+  · intro ctx dp acc s lo _; rw [unknownTsLoop.eq_def]; trivial
 
 theorem u_scalar_uid {α} {fuel : Nat} (ih : AllUid e fuel) {m : PM α} (hm : Mono m e) {g : α → Nat → Gen}
-    (hg : ∀ v off, UidOk (g v off)) {ctx : Ctx} {isB : Bool} {acc : List Gen} {s : PState} {lo : Nat}
+    (hg : ∀ v off, UidOk (g v off)) {ctx : Ctx} {isB : Bool} {dp : Nat} {acc : List Gen} {s : PState} {lo : Nat}
     (hlo : lo ≤ s.seqId) (hacc : UidOkL acc.reverse) :
-    MQ lo ((m >>= fun v => getLineOffset >>= fun off => unknownIfdata fuel ctx isB (g v off :: acc)) e s)
+    MQ lo ((m >>= fun v => getLineOffset >>= fun off => unknownIfdata fuel ctx isB dp (g v off :: acc)) e s)
       (fun g _ => UidOk g) := by
   refine MQ.bind (hm s lo hlo) ?_
   intro v s1 hlo1 _
   refine MQ.lineOffset ?_
   intro off
-  exact ih.u ctx isB _ s1 lo hlo1 (uidOkL_reverse_cons _ acc (hg v off) hacc)
+  exact ih.u ctx isB dp _ s1 lo hlo1 (uidOkL_reverse_cons _ acc (hg v off) hacc)
 
-theorem u_number_uid {fuel : Nat} (ih : AllUid e fuel) {ctx : Ctx} {isB : Bool} {acc : List Gen} {s : PState} {lo : Nat}
+theorem u_number_uid {fuel : Nat} (ih : AllUid e fuel) {ctx : Ctx} {isB : Bool} {dp : Nat} {acc : List Gen} {s : PState} {lo : Nat}
     (hlo : lo ≤ s.seqId) (hacc : UidOkL acc.reverse) (K : Except Diag (Int × Bool) → PM Gen) (w : Nat)
-    (hok : ∀ v hex, K (.ok (v, hex)) = (getLineOffset >>= fun off => unknownIfdata fuel ctx isB (.int w off v hex :: acc)))
+    (hok : ∀ v hex, K (.ok (v, hex)) = (getLineOffset >>= fun off => unknownIfdata fuel ctx isB dp (.int w off v hex :: acc)))
     (herr : ∀ d s1, lo ≤ s1.seqId → MQ lo (K (.error d) e s1) (fun g _ => UidOk g)) :
     MQ lo ((attempt (getInteger ctx w) >>= K) e s) (fun g _ => UidOk g) := by
   refine MQ.attemptB (getInteger_mono ctx w s lo hlo) ?_ herr
@@ -604,7 +604,7 @@ theorem u_number_uid {fuel : Nat} (ih : AllUid e fuel) {ctx : Ctx} {isB : Bool} 
   rw [hok]
   refine MQ.lineOffset ?_
   intro off
-  exact ih.u ctx isB _ s1 lo hlo1 (uidOkL_reverse_cons _ acc (uidOk_int ..) hacc)
+  exact ih.u ctx isB dp _ s1 lo hlo1 (uidOkL_reverse_cons _ acc (uidOk_int ..) hacc)
 
 theorem undo_uid {β} {lo : Nat} {f : Unit → PM β} {s : PState} {Q : β → PState → Prop}
     (h : ∀ s1 : PState, s1.seqId = s.seqId → MQ lo (f () e s1) Q) : MQ lo ((undoGetToken >>= f) e s) Q := by
@@ -613,11 +613,13 @@ theorem undo_uid {β} {lo : Nat} {f : Unit → PM β} {s : PState} {Q : β → P
   · trivial
   · exact h _ rfl
 
-theorem u_uid_step {fuel : Nat} (ih : AllUid e fuel) (ctx : Ctx) (isB : Bool) (acc : List Gen) (s : PState) (lo : Nat)
-    (hlo : lo ≤ s.seqId) (hacc : UidOkL acc.reverse) :
-    MQ lo (unknownIfdata (fuel + 1) ctx isB acc e s) (fun g _ => UidOk g) := by
+theorem u_uid_step {fuel : Nat} (ih : AllUid e fuel) (ctx : Ctx) (isB : Bool) (dp : Nat) (acc : List Gen) (s : PState)
+    (lo : Nat) (hlo : lo ≤ s.seqId) (hacc : UidOkL acc.reverse) :
+    MQ lo (unknownIfdata (fuel + 1) ctx isB dp acc e s) (fun g _ => UidOk g) := by
   rw [unknownIfdata.eq_def]
   dsimp only
+  split
+  · exact MQ.fail hlo
   simp only [peekToken_bind]
   have hdone : MQ lo ((Pure.pure (Gen.struct 0 acc.reverse) : PM Gen) e s) (fun g _ => UidOk g) :=
     MQ.pure hlo (by rw [uidOk_struct]; exact hacc)
@@ -645,26 +647,27 @@ theorem u_uid_step {fuel : Nat} (ih : AllUid e fuel) (ctx : Ctx) (isB : Bool) (a
       exact u_scalar_uid ih (getDouble_mono ctx) (fun _ _ => uidOk_double ..) (by omega) hacc
     split
     · split
-      · refine MQ.bind (ih.ts ctx s lo hlo) ?_
+      · refine MQ.bind (ih.ts ctx dp s lo hlo) ?_
         intro ts s1 hlo1 hts
-        exact ih.u ctx isB _ s1 lo hlo1 (uidOkL_reverse_cons _ acc hts hacc)
+        exact ih.u ctx isB dp _ s1 lo hlo1 (uidOkL_reverse_cons _ acc hts hacc)
       · exact hdone
     split
     · exact hdone
     split
-    · exact ih.u ctx isB acc s lo hlo hacc
+    · exact ih.u ctx isB dp acc s lo hlo hacc
     · refine MQ.bind (getToken_mono ctx s lo hlo) ?_
       intro _ s1 hlo1 _
-      exact ih.u ctx isB acc s1 lo hlo1 hacc
+      exact ih.u ctx isB dp acc s1 lo hlo1 hacc
 
-theorem ts_uid_step {fuel : Nat} (ih : AllUid e fuel) (ctx : Ctx) (s : PState) (lo : Nat) (hlo : lo ≤ s.seqId) :
-    MQ lo (unknownTaggedstruct (fuel + 1) ctx e s) (fun g _ => UidOk g) := by
+theorem ts_uid_step {fuel : Nat} (ih : AllUid e fuel) (ctx : Ctx) (dp : Nat) (s : PState) (lo : Nat)
+    (hlo : lo ≤ s.seqId) :
+    MQ lo (unknownTaggedstruct (fuel + 1) ctx dp e s) (fun g _ => UidOk g) := by
   rw [unknownTaggedstruct.eq_def]
   dsimp only
   simp only [getEnv_bind]
   refine MQ.bind (skipComments_mono ctx _ s lo hlo) ?_
   intro _ s1 hlo1 _
-  refine MQ.bind (ih.l ctx [] s1 lo hlo1) ?_
+  refine MQ.bind (ih.l ctx dp [] s1 lo hlo1) ?_
   intro items s2 hlo2 ⟨new, hitems, hnew, _⟩
   have hok : UidOk (.taggedStruct items) := by
     rw [uidOk_ts, hitems]; simpa using hnew.1
@@ -677,9 +680,9 @@ theorem ts_uid_step {fuel : Nat} (ih : AllUid e fuel) (ctx : Ctx) (s : PState) (
     · exact MQ.fail hlo2
     · exact MQ.pure hlo2 hok
 
-theorem l_uid_step {fuel : Nat} (ih : AllUid e fuel) (ctx : Ctx) (acc : List (TItem Gen)) (s : PState) (lo : Nat)
-    (hlo : lo ≤ s.seqId) :
-    MQ lo (unknownTsLoop (fuel + 1) ctx acc e s)
+theorem l_uid_step {fuel : Nat} (ih : AllUid e fuel) (ctx : Ctx) (dp : Nat) (acc : List (TItem Gen)) (s : PState)
+    (lo : Nat) (hlo : lo ≤ s.seqId) :
+    MQ lo (unknownTsLoop (fuel + 1) ctx dp acc e s)
       (fun vs s' => ∃ new, vs = acc.reverse ++ new ∧ ItemsQ s new s' ∧ s.seqId ≤ s'.seqId) := by
   refine MQ.weaken (lo := s.seqId) ?_ hlo (fun _ _ h => h)
   rw [unknownTsLoop.eq_def]
@@ -693,7 +696,7 @@ theorem l_uid_step {fuel : Nat} (ih : AllUid e fuel) (ctx : Ctx) (acc : List (TI
   · intro bc s1 hlo1 _
     cases bc with
     | comment tok off =>
-      refine MQ.weaken (ih.l ctx acc s1 s.seqId hlo1) (Nat.le_refl _) ?_
+      refine MQ.weaken (ih.l ctx dp acc s1 s.seqId hlo1) (Nat.le_refl _) ?_
       intro vs s' ⟨new, hvs, hnew, hmono⟩
       refine ⟨new, hvs, ⟨hnew.1, fun x hx => ?_⟩, by omega⟩
       have := hnew.2 x hx
@@ -702,13 +705,13 @@ theorem l_uid_step {fuel : Nat} (ih : AllUid e fuel) (ctx : Ctx) (acc : List (TI
     | block tok isBlock startOff =>
       dsimp only
       simp only [getNextId_bind]
-      have hu := ih.u ⟨tok.text, tok.fileid, tok.line⟩ isBlock [] { s1 with seqId := s1.seqId + 1 } (s1.seqId + 1)
+      have hu := ih.u ⟨tok.text, tok.fileid, tok.line⟩ isBlock (dp + 1) [] { s1 with seqId := s1.seqId + 1 } (s1.seqId + 1)
         (Nat.le_refl _) (by rw [List.reverse_nil, uidOkL_nil]; trivial)
       refine MQ.bind (MQ.rel (s := { s1 with seqId := s1.seqId + 1 }) (show s.seqId ≤ s1.seqId + 1 by omega) hu) ?_
       intro result s2 hlo2 hq2
       refine MQ.bind (MQ.rel hlo2 (endOfTagged_mono _ _ _ s2 s2.seqId (Nat.le_refl _))) ?_
       intro endOff s3 hlo3 hq3
-      refine MQ.weaken (ih.l ctx _ s3 s.seqId hlo3) (Nat.le_refl _) ?_
+      refine MQ.weaken (ih.l ctx dp _ s3 s.seqId hlo3) (Nat.le_refl _) ?_
       intro vs s' ⟨new, hvs, hnew, hmono⟩
       have h2 : s1.seqId + 1 ≤ s2.seqId := hq2.2
       refine ⟨(⟨tok.line, s1.seqId + 1, startOff, endOff, tok.text, result, isBlock⟩ : TItem Gen) :: new, by simp [hvs],
@@ -723,9 +726,9 @@ theorem allUid (e : Env) : ∀ fuel, AllUid e fuel
   | 0 => allUid_zero
   | fuel + 1 =>
     have ih := allUid e fuel
-    ⟨fun ctx isB acc s lo hlo hacc => u_uid_step ih ctx isB acc s lo hlo hacc,
-     fun ctx s lo hlo => ts_uid_step ih ctx s lo hlo,
-     fun ctx acc s lo hlo => l_uid_step ih ctx acc s lo hlo⟩
+    ⟨fun ctx isB dp acc s lo hlo hacc => u_uid_step ih ctx isB dp acc s lo hlo hacc,
+     fun ctx dp s lo hlo => ts_uid_step ih ctx dp s lo hlo,
+     fun ctx dp acc s lo hlo => l_uid_step ih ctx dp acc s lo hlo⟩
 
 theorem unknownStart_uid (ctx : Ctx) (s : PState) (lo : Nat) (hlo : lo ≤ s.seqId) :
     MQ lo (unknownStart ctx e s) (fun g _ => UidOk g) := by
@@ -734,7 +737,7 @@ theorem unknownStart_uid (ctx : Ctx) (s : PState) (lo : Nat) (hlo : lo ≤ s.seq
   have hA := allUid e (unknownFuel e.toks.size)
   have hnil : UidOkL ([] : List Gen).reverse := by rw [List.reverse_nil, uidOkL_nil]; trivial
   cases e.toks[s.pos]? with
-  | none => exact hA.u ctx true [] s lo hlo hnil
+  | none => exact hA.u ctx true 0 [] s lo hlo hnil
   | some t =>
     dsimp only
     split
@@ -743,7 +746,7 @@ theorem unknownStart_uid (ctx : Ctx) (s : PState) (lo : Nat) (hlo : lo ≤ s.seq
       refine MQ.lineOffset ?_
       intro startOff
       simp only [getNextId_bind]
-      refine MQ.bind (hA.u _ true [] { s1 with seqId := s1.seqId + 1 } lo (by show lo ≤ s1.seqId + 1; omega) hnil) ?_
+      refine MQ.bind (hA.u _ true 0 [] { s1 with seqId := s1.seqId + 1 } lo (by show lo ≤ s1.seqId + 1; omega) hnil) ?_
       intro result s2 hlo2 hres
       refine undo_uid ?_
       intro s3 h3
@@ -758,7 +761,7 @@ theorem unknownStart_uid (ctx : Ctx) (s : PState) (lo : Nat) (hlo : lo ≤ s.seq
         refine MQ.pure hlo4 ?_
         rw [uidOk_block, uidOkL_cons, uidOkL_nil, uidOk_tu, uidOkT_cons, uidOkT_nil]
         exact ⟨⟨by show s1.seqId + 1 ≠ 0; omega, fun x hx => (by cases hx), hres, trivial⟩, trivial⟩
-    · exact hA.u ctx true [] s lo hlo hnil
+    · exact hA.u ctx true 0 [] s lo hlo hnil
 
 /-- **the data that `parse_ifdata` stores carries increasing non-zero uids** -/
 theorem parseIfdata_uid (f32 : List Char → Option (List Char)) (specs : List Spec) (ctx : Ctx) (s : PState) :
